@@ -242,6 +242,29 @@ func genC11(c *Ctx) {
 					fmtCase("fmt-length", o)
 				}
 				fmtCase("fmt-valid", sig)
+				// crafted key whose signature on msg has a tiny s, so that (r, s+n) still fits 32 bytes:
+				// k = s^-1 (e + r d), d' = (s' k - e) r^-1
+				{
+					digest := []byte(hs.h.ComputeHash(msg))
+					e := new(big.Int).SetBytes(digest[:32])
+					k := new(big.Int).Mul(r, d)
+					k.Add(k, e).Mul(k, new(big.Int).ModInverse(s, cv.n)).Mod(k, cv.n)
+					for _, s2 := range []*big.Int{big.NewInt(1), big.NewInt(2), new(big.Int).SetBytes(c.bytes(12))} {
+						if s2.Sign() == 0 {
+							continue
+						}
+						d2 := new(big.Int).Mul(s2, k)
+						d2.Sub(d2, e).Mul(d2, new(big.Int).ModInverse(r, cv.n)).Mod(d2, cv.n)
+						if d2.Sign() == 0 {
+							continue
+						}
+						pk2 := ecSk(cv, d2).PublicKey()
+						verify("small-s/valid", pk2, hs.h, msg, append(be(r, 32), be(s2, 32)...))
+						verify("small-s/plus-n", pk2, hs.h, msg, append(be(r, 32), be(new(big.Int).Add(s2, cv.n), 32)...))
+						verify("small-s/twin", pk2, hs.h, msg, append(be(r, 32), be(new(big.Int).Sub(cv.n, s2), 32)...))
+						fmtCase("fmt-small-s", append(be(r, 32), be(new(big.Int).Add(s2, cv.n), 32)...))
+					}
+				}
 				// same key bytes on the other curve would not even decode in general; use the other curve's own key
 				_ = other
 			}
